@@ -1718,9 +1718,13 @@ class Tensor:
         # In Tensor._op, any tensor entering an op has its grad/view-info cleared
         # We must do this here up front since we need to consume information
         # about ``self``
+        # a disconnected view lets go of its base here; if the operation
+        # fails the view must be left as it was
+        old_base = self._base
         self.null_grad(_clear_view_info=True)
         if self._base is not None and not self._base._view_children:
             self._base = None
+        stale_base = old_base if self._base is None else None
 
         if self._base is not None:
             # mutating a view mutates its base: the base's gradient is stale too
@@ -1776,6 +1780,8 @@ class Tensor:
                 )
         except Exception as e:
             graph.restore_old_graph()
+            if stale_base is not None:
+                self._base = stale_base
             raise e
 
         placeholder_mutant_view._constant = inplace_target._constant
